@@ -7,6 +7,7 @@ exceptions model python exceptions, and no state copying is needed.  Fresh symbo
 deterministic (per-run counter) so a re-run of a prefix rebuilds identical terms.
 """
 import time
+import os
 import z3
 from .zutil import *
 
@@ -119,6 +120,11 @@ class Run:
         self.decisions = []
         self.solver = z3.Solver()
         self.solver.set('timeout', explorer.timeout_ms)
+        # the retry stages of the check driver use another solver seed: a quantified query that runs away with one seed is
+        # usually decided at once with another (an answer is an answer, whatever the seed)
+        _seed = int(os.environ.get('PYVC_Z3_SEED') or 0)
+        if _seed:
+            self.solver.set('random_seed', _seed)
         self.pc = []
         self.counter = 0
         self.heap = z3.Const('heap0', HEAP)
